@@ -55,6 +55,11 @@ def check(ctx):
         "operating-system scheduling itself; a worker dying while holding the queue's internal lock (inside CPython)",
     ]
     ctx.assumptions.append("multiprocessing.Queue is a reliable FIFO channel per producer; a process that exited has flushed its queue feeder thread")
+    # mechanisms this property rests on (see shared.py): a change there is reported here as well
+    from . import shared as _sh
+
+    _sh.gaf_reader(ctx)
+    _sh.cli_layer(ctx, "gaftools.cli.realign")
 
 
 # ---------------------------------------------------------------------------------------------
